@@ -181,6 +181,8 @@ def main():
                     if not np.all(np.isfinite(J)) or not np.all(np.isfinite(V)) or not np.all(np.isfinite(sigma)):
                         continue
                     smax = max(float(sigma.max()) if len(sigma) else 0.0, 1e-300)
+                    if 0.0 < np.abs(J).max() < 1e-100:
+                        continue  # Jacobian at underflow scale: relative accuracy is not meaningful
                     e1 = np.abs(V.T @ V - np.eye(V.shape[1])).max() if V.size else 0.0
                     e2 = 0.0
                     for kk in range(len(sigma)):
